@@ -42,6 +42,11 @@
 (*              real caps; every row is printed with the verdict predicted by *)
 (*              both parsers; the harness replays the rows into the real      *)
 (*              Secrets / ParseSecrets.                                       *)
+(*  "history"   ONE builder object used more than once: states = histories of *)
+(*              AddPart / Secrets / Parts / ParseSecrets(of what the caller   *)
+(*              got last) / the caller writing into the slice it got, with    *)
+(*              the observation predicted for every call; every maximal       *)
+(*              history is printed and replayed on one real builder.          *)
 EXTENDS Integers, Sequences, FiniteSets, TLC, Json
 
 CONSTANTS
@@ -53,7 +58,9 @@ CONSTANTS
   NatElems,      \* "seqs": the nat values used as elements, e.g. 0..MaxPartSize+1
   LenChoices,    \* "catalogue": part lengths, e.g. {0, 1, 3, MaxPartSize, MaxPartSize + 1}
   OverLens,      \* "catalogue": part lengths of the layouts with PartsCap + 1 parts (LenChoices or a subset)
-  FillV          \* "catalogue": the nat value of every data element
+  FillV,         \* "catalogue": the nat value of every data element
+  HistProfiles,  \* "history": set of records [ops |-> set of operation names, max |-> longest history]
+  MemoDesign     \* "history": what the builder keeps between calls: "none" (the code), or a deliberately wrong design
 
 VARIABLE x       \* "seqs": a sequence of elements; "layouts": a sequence of parts; "catalogue": a row
 
@@ -229,20 +236,109 @@ EmitRow ==
                              ok |-> c.ok, parts |-> c.val, why |-> c.why,
                              ign_ok |-> g.ok, ign_parts |-> g.val]) >>)
 
+(* ---- "history": one builder object, several calls ------------------------- *)
+(* The builder holds the parts added so far (commitment_builder.go:20-37); Secrets() flattens them anew at every call *)
+(* and hands out a fresh slice (:39-57).  Part number k (in the order of the AddPart calls) has HLen(op) elements, all *)
+(* of them the data element Nat_(100 + k), so that a flattening shows which parts it was made from.                    *)
+(* MemoDesign names what the builder object keeps between calls:                                                       *)
+(*   "none"    nothing (the code)                                                                                      *)
+(*   "stale"   the first flattening is kept and handed out again; AddPart does not drop it                             *)
+(*   "shared"  the flattening is kept, AddPart drops it, but the caller holds the very slice that is kept              *)
+(* With "none" HistSecretsArePacking and HistParseGivesParts hold; for the other two TLC finds histories of three to  *)
+(* four calls that violate them (HistWitness, evaluated by the harness as a self-test that the histories discriminate).*)
+HOps == {"add0", "add1", "add2", "addBig", "secrets", "parse", "parts", "scribble"}
+HLen(op) == CASE op = "add0" -> 0 [] op = "add1" -> 1 [] op = "add2" -> 2 [] op = "addBig" -> MaxPartSize + 1
+IsAdd(op) == op \in {"add0", "add1", "add2", "addBig"}
+Scribbled == P64(1)                             \* what the caller writes over the first element of the slice it holds
+NoRes == [ok |-> FALSE, val |-> << >>, why |-> "no call yet"]
+HFlat(ps) == Flatten([i \in 1..Len(ps) |-> << Nat_(ps[i].n) >> \o [j \in 1..ps[i].n |-> Nat_(100 + ps[i].id)]])
+HSecrets(ps) ==
+  IF Len(ps) > PartsCap THEN Err("too many parts")
+  ELSE IF \E i \in 1..Len(ps) : MaxPartSize < ps[i].n THEN Err("part too large")
+  ELSE Ok(HFlat(ps))
+HParse(r) == IF r.ok THEN LET q == Parse(View(r.val), Dangling) IN [ok |-> q.ok, val |-> q.val, why |-> q.why] ELSE NoRes
+
+(* object state: b = the builder (parts, memo), got = the slice the caller holds from the latest Secrets() *)
+H0 == [parts |-> << >>, memo |-> NoRes, got |-> NoRes]
+HEnabled(s, op) == CASE op = "parse"    -> s.got.ok
+                     [] op = "scribble" -> s.got.ok /\ Len(s.got.val) >= 1
+                     [] OTHER           -> TRUE
+(* the observation of a call: a record [ok, val, why]; val = the flattening / the parsed slices / the part list *)
+HStep(design, s, op) ==
+  CASE IsAdd(op) ->
+         [st  |-> [s EXCEPT !.parts = Append(s.parts, [n |-> HLen(op), id |-> Len(s.parts) + 1]),
+                            !.memo  = IF design = "stale" THEN s.memo ELSE NoRes],
+          obs |-> Ok(<< >>)]
+    [] op = "secrets" ->
+         LET r == IF design # "none" /\ s.memo.ok THEN s.memo ELSE HSecrets(s.parts) IN
+         [st  |-> [s EXCEPT !.memo = IF design # "none" /\ r.ok THEN r ELSE s.memo, !.got = r], obs |-> r]
+    [] op = "parse"    -> [st |-> s, obs |-> HParse(s.got)]
+    [] op = "parts"    -> [st |-> s, obs |-> Ok(s.parts)]
+    [] op = "scribble" ->
+         LET w == [s.got EXCEPT !.val[1] = Scribbled] IN
+         [st  |-> [s EXCEPT !.got = w, !.memo = IF design # "none" /\ s.memo.ok THEN w ELSE s.memo], obs |-> Ok(<< >>)]
+
+RECURSIVE HRun(_, _, _, _)           \* the observations of a whole history (stops at the first call that is not enabled)
+HRun(design, s, ops, acc) ==
+  IF ops = << >> \/ ~HEnabled(s, Head(ops)) THEN acc
+  ELSE LET r == HStep(design, s, Head(ops)) IN HRun(design, r.st, Tail(ops), Append(acc, r.obs))
+HObs(design, ops) == HRun(design, H0, ops, << >>)
+
+(* what the property says about a history, from the history alone: the parts added before call k *)
+RECURSIVE PartsBefore(_, _)
+PartsBefore(ops, k) ==
+  IF k = 0 THEN << >>
+  ELSE LET ps == PartsBefore(ops, k - 1) IN
+       IF IsAdd(ops[k]) THEN Append(ps, [n |-> HLen(ops[k]), id |-> Len(ps) + 1]) ELSE ps
+LastSecretsBefore(ops, k) ==      \* index of the latest "secrets" call before call k (0: none)
+  LET c == { j \in 1..(k - 1) : ops[j] = "secrets" } IN IF c = {} THEN 0 ELSE CHOOSE j \in c : \A i \in c : i <= j
+NoScribbleBetween(ops, j, k) == \A i \in (j + 1)..(k - 1) : ops[i] # "scribble"
+(* every Secrets() is the packing of the parts added so far - whatever was called before *)
+SecretsArePacking(ops, obs) ==
+  \A k \in 1..Len(obs) : ops[k] = "secrets" => obs[k] = HSecrets(PartsBefore(ops, k))
+(* parsing what Secrets() returned (untouched) gives the parts that had been added when it was called *)
+ParseGivesParts(ops, obs) ==
+  \A k \in 1..Len(obs) : ops[k] = "parse" =>
+     LET j == LastSecretsBefore(ops, k) IN
+       (j > 0 /\ NoScribbleBetween(ops, j, k) /\ PartsBefore(ops, j) # << >>) =>
+          /\ obs[k].ok
+          /\ PartsOf(obs[j].val, obs[k].val) = [i \in 1..Len(PartsBefore(ops, j)) |->
+                 LET p == PartsBefore(ops, j)[i] IN [e \in 1..p.n |-> Nat_(100 + p.id)]]
+HistSecretsArePacking == Mode = "history" => SecretsArePacking(x.ops, x.obs)
+HistParseGivesParts   == Mode = "history" => ParseGivesParts(x.ops, x.obs)
+(* a history on which a wrong design is told from the code (the harness evaluates this in a wrapper module) *)
+WitnessHists == UNION { [1..n -> {"add1", "secrets", "scribble", "parse"}] : n \in 1..4 }
+HistWitness(design) ==
+  CHOOSE h \in WitnessHists :
+    LET o == TLCEval(HObs(design, h)) IN Len(o) = Len(h) /\ ~(SecretsArePacking(h, o) /\ ParseGivesParts(h, o))
+(* every maximal history is printed with the observations predicted for the code *)
+HistMaximal == Len(x.ops) = x.prof.max
+EmitHist ==
+  (Mode = "history" /\ HistMaximal) =>
+    PrintT(<< "HIST", ToJson([pk |-> ToString(x.prof), ops |-> x.ops, obs |-> x.obs, fin |-> HSecrets(x.st.parts)]) >>)
+
 (* ---- state machine ------------------------------------------------------- *)
 DataElems == {Nat_(0), El("p63")}          \* "layouts": data elements are never looked at by either function
-PartsSmall == UNION { [1..n -> DataElems] : n \in 0..(MaxPartSize + 1) }
-PartsOver  == UNION { [1..n -> {Nat_(0)}] : n \in 0..(MaxPartSize + 1) }   \* the part that exceeds PartsCap: its length only
+(* (TLC evaluates constant definitions without parameters at start-up, in every mode: at the real caps these two sets  *)
+(* would be built - half a minute - although only "layouts" uses them)                                                  *)
+PartsSmall == IF Mode # "layouts" THEN {} ELSE UNION { [1..n -> DataElems] : n \in 0..(MaxPartSize + 1) }
+PartsOver  == IF Mode # "layouts" THEN {} ELSE UNION { [1..n -> {Nat_(0)}] : n \in 0..(MaxPartSize + 1) }   \* the part that exceeds PartsCap: its length only
 
 Init == CASE Mode = "seqs"      -> x = << >>
           [] Mode = "layouts"   -> x = << >>
           [] Mode = "catalogue" -> x \in { [lens |-> l, mut |-> NoMut] : l \in Layouts }
+          [] Mode = "history"   -> x \in { [prof |-> p, ops |-> << >>, obs |-> << >>, st |-> H0] : p \in HistProfiles }
 Next == CASE Mode = "seqs"      -> Len(x) < MaxSeqLen /\ \E e \in Elems : x' = Append(x, e)
           [] Mode = "layouts"   -> \/ Len(x) < PartsCap /\ \E p \in PartsSmall : x' = Append(x, p)
                                    \/ Len(x) = PartsCap /\ \E p \in PartsOver : x' = Append(x, p)
           [] Mode = "catalogue" -> x.mut = NoMut /\ \E m \in Mutations(x.lens) \ {NoMut} : x' = [x EXCEPT !.mut = m]
+          [] Mode = "history"   -> /\ Len(x.ops) < x.prof.max
+                                   /\ \E op \in x.prof.ops : /\ HEnabled(x.st, op)
+                                                             /\ LET r == HStep(MemoDesign, x.st, op) IN
+                                                                  x' = [x EXCEPT !.ops = Append(@, op), !.obs = Append(@, r.obs), !.st = r.st]
 Spec == Init /\ [][Next]_x
 
-ASSUME Dangling \in {"ignored", "checked"} /\ Mode \in {"seqs", "layouts", "catalogue"}
+ASSUME Dangling \in {"ignored", "checked"} /\ Mode \in {"seqs", "layouts", "catalogue", "history"}
+ASSUME MemoDesign \in {"none", "stale", "shared"} /\ \A p \in HistProfiles : p.ops \subseteq HOps /\ p.max \in Nat
 ASSUME PartsCap \in Nat /\ MaxPartSize \in Nat /\ (PartsCap + 1) * (MaxPartSize + 2) < 2147483647
 =============================================================================
